@@ -43,6 +43,31 @@ CHECKS = {
     note="Trusted: TLC, bookmark position decoding in the harness (last 8 bytes big endian). Tail+selector combinations not driven.",
     technique="TLA+ ring model + TLC model checking; model-based replay with exhaustive resume/tail probes; TLC trace validation",
     ref="5.12"),
+ "C03": dict(
+    level="model_checking",
+    text="TLC exhaustively checks the implementation-level step machines of the helpers in wrap.go (Helpers.tla: every "
+         "underlying Get/Update/Create/Destroy/Watch call and every watch delivery is one action) racing finalizer traffic, "
+         "teardown, destroy and re-creation: obligations at every return, no removal with finalizers, honest teardown "
+         "readiness, honest context cancellation, NoMissedWakeup, and TeardownAndDestroy completion under fairness. "
+         "TLC-simulated schedules are replayed on the real helpers through a gating CoreState proxy inside a synctest "
+         "bubble (one underlying call / one delivery per scheduling decision); the recorded trace is judged by TLC "
+         "against the property-level spec TraceHelpers.tla.",
+    note="Trusted: TLC, synctest, the gating proxy. Schedules replayed on the code are a TLC-simulated sample (quick 300, "
+         "thorough 6000) of the interleavings that the model checks exhaustively; one resource, 3 actors.",
+    technique="TLA+ helper step-machine model + TLC (safety and liveness); schedule replay through a gating proxy; TLC trace validation",
+    ref="5.3"),
+ "C04": dict(
+    level="model_checking",
+    text="Same model, harness and judge as C03 with contention programs (2 read-modify-write callers with token mutators "
+         "plus a disturber that tears down / destroys / re-creates): TLC checks on the model that every successful call "
+         "wrote at most once on top of the current value of the same incarnation and every failed call wrote nothing; "
+         "the judge TraceHelpers.tla checks on every real trace: written value = mutation applied to the then-current "
+         "value, applied exactly once, returned object = written object, errors had no effect, owner/phase conflicts never "
+         "turned into success, no call spins forever.",
+    note="Trusted: as C03. Known finding C04/aba (stale update over a re-created incarnation with coinciding version) is "
+         "listed in known_findings.json and modelled as the named deviation RecreateSameVersionABA.",
+    technique="TLA+ helper step-machine model + TLC; schedule replay through a gating proxy; TLC trace validation",
+    ref="5.4"),
 }
 
 NOT_YET = "check not built yet in this round (planned, see DESIGN.md section 5)"
